@@ -19,6 +19,8 @@ FOCI = {
  'schedule': "At least two of the three must need a particular INTERLEAVING or ARRIVAL PATTERN to manifest (where a read or write boundary falls, which of two events is seen first, what happens while a peer is blocked, a cancelled or re-polled future, a wake-up that is or is not delivered), not merely a particular input value.",
  'fault': "At least two of the three must need a FAULT at a particular point to manifest (end of stream, an I/O error, an interrupted or short read/write, a timeout, a peer that stalls or disappears, an error raised inside a destructor or clean-up path) and must lead to a wrong SUCCESS or a hang/panic rather than to an ordinary error.",
  'history': "At least two of the three must need a MULTI-STEP HISTORY to manifest (state left behind by an earlier operation and used by a later one, a second exchange on the same connection or object, a reconnect, a value that wraps or is reused, two code sites that each look fine alone).",
+ 'cooperating': "At least two of the three must consist of TWO COOPERATING EDITS in different functions (or different files) that each look harmless on their own - a value computed in one place and interpreted slightly differently in another, a check moved from a callee to only some of its callers, a default changed here and relied upon there, state initialised in a constructor and assumed elsewhere - so that a reviewer reading either hunk alone would approve it.",
+ 'free': "No particular focus this round: pick whatever you judge most likely to slip past a careful reviewer AND past a test harness that already exercises the obvious paths with random fragmentation, random faults and random values. Think about code the main files call in OTHER modules, about rarely used public entry points, and about conditions that need three or more things to coincide.",
  'boundary': "At least two of the three must need an UNUSUAL BUT VALID value to manifest (sizes and counts at 0, 1, 2^8, 2^16, 2^32 boundaries, longest/shortest legal forms, rarely used variants, a legal but rarely used spelling) together with a particular path through the code.",
 }
 out = []
